@@ -52,6 +52,10 @@ def main():
         flags += ' -std=c99'
     if '-std=c89' in src:
         flags += ' -std=c89'
+    elif '-std=gnu89' in src:
+        flags += ' -std=gnu89'
+    if '-funsigned-char' in src:
+        flags += ' -funsigned-char'
     if '-fsanitize=address' in src + res['needs']:
         flags += ' -g -fsanitize=address -fno-omit-frame-pointer'
     if '-fsanitize=undefined' in src + res['needs']:
